@@ -1757,21 +1757,34 @@ package snaps
 //@   ensures colors.NOCOLOR ==> wbuf[w] == old(wbuf[w]) + evLine(symbol, verb, events)
 //@   ensures prefixof(old(wbuf[w]), wbuf[w])
 //@
+// listText(o, n): the bullet lines of the first n items; listHead: the heading of a list of obsolete items
+//@ specfun listText(o Slice<Str>, n Int) Str
+//@ axiom listText_0: forall o Slice<Str> {listText(o, 0)}: listText(o, 0) == ""
+//@ axiom listText_step: forall o Slice<Str>, m Int {listText(o, m)}: m >= 1 ==> listText(o, m) == listText(o, m - 1) + "  ↳  • " + o[m - 1] + "\n"
+//@ specfun listHead(n Int, name Str, removed Bool) Str = "\n› " + itoa(n) + " snapshot " + (n > 1 ? name + "s" : name) + " " + (removed ? "removed" : "obsolete") + "\n"
 //@ func summary$1(objects, name)
 //@   mode str
 //@   requires s != nil
 //@   assigns wbuf[s]
 //@   ensures prefixof(old(wbuf[s]), wbuf[s]) && len(wbuf[s]) > len(old(wbuf[s]))
+//@   ensures [exact] colors.NOCOLOR ==> wbuf[s] == old(wbuf[s]) + listHead(len(objects), name, shouldUpdate) + listText(objects, len(objects))
 //@   loop 1 invariant prefixof(old(wbuf[s]), wbuf[s]) && len(wbuf[s]) > len(old(wbuf[s])) && s != nil && (forall r Ref: r != s ==> wbuf[r] == old(wbuf)[r])
+//@   loop 1 invariant 0 <= $idx && $idx <= len(objects) && (colors.NOCOLOR ==> wbuf[s] == old(wbuf[s]) + listHead(len(objects), name, shouldUpdate) + listText(objects, $idx))
 //@
 //@ func summary(obsoleteFiles, obsoleteTests, NOskippedTests, testEvents, shouldUpdate) returns (r)
 //@   mode str
+//@   option paths
 //@   assigns alloc
 //@   let nothing = len(obsoleteFiles) == 0 && len(obsoleteTests) == 0 && len(testEvents) == 0 && NOskippedTests == 0
 //@   let counters = evLine("✓ ", "passed", testEvents[passed]) + evLine("✕ ", "failed", testEvents[erred]) + evLine("✎ ", "added", testEvents[added]) + evLine("✎ ", "updated", testEvents[updated]) + evLine("⟳ ", "skipped", NOskippedTests)
 //@   ensures [silent] nothing ==> r == ""
 //@   ensures [shown] !nothing ==> r != ""
 //@   ensures [totals_exact] !nothing && colors.NOCOLOR && len(obsoleteFiles) == 0 && len(obsoleteTests) == 0 ==> r == "\nSnapshot Summary\n\n" + counters
+//@   let nObs = len(obsoleteFiles) + len(obsoleteTests)
+//@   let files = len(obsoleteFiles) > 0 ? listHead(len(obsoleteFiles), "file", shouldUpdate) + listText(obsoleteFiles, len(obsoleteFiles)) : ""
+//@   let tests = len(obsoleteTests) > 0 ? listHead(len(obsoleteTests), "test", shouldUpdate) + listText(obsoleteTests, len(obsoleteTests)) : ""
+//@   let hint = (!shouldUpdate && nObs > 0) ? "\nTo remove " + (nObs > 1 ? "them" : "it") + ", re-run tests with `UPDATE_SNAPS=clean go test ./...`\n" : ""
+//@   ensures [exact] !nothing && colors.NOCOLOR ==> r == "\nSnapshot Summary\n\n" + counters + files + tests + hint
 
 //@ specfun testCount() Int = atoiOf(flagValue("test.count"))
 //@ func Clean(m, opts)
